@@ -67,6 +67,7 @@ impl Prop for SortP {
                     Recv::window(c + 1, r, (1, 0), (1 + c, r)),
                     Recv::foreign_owned(c, r),
                     Recv::direct_long(c, r),
+                    Recv::nested(c + 3, r + 2, (1, 0), (c + 3, r + 2), (1, 1), (1 + c, 1 + r)),
                 ];
                 for rd in recvs {
                     if k >= 6 {
@@ -126,7 +127,7 @@ impl Prop for SortP {
         let (line, whole, idx) = if self.by_row { ("row", "columns", "row") } else { ("column", "rows", "column") };
         format!(
             "cells are (key, unique tag) pairs whose Ord/Eq look at the key only; for every shape in the bound the key {line} ranges over ALL of {{0..k-1}}^k (every tie pattern and every permutation, hence every input of the permutation-to-swaps routine), every {idx} index 0..=dim (dim itself is out of range), every entry point of the family \
-             ({variants}); additionally key lines of length 21, 24, 33, 40 and 48 from an enumerated tie-rich family k[i] = (i*a+b) mod m (std's unstable sort is an insertion sort, hence accidentally stable, up to 20 elements), on owned arrays, interior and edge windows of a larger parent, and a third-party implementor using the trait defaults. \
+             ({variants}); additionally key lines of length 21, 24, 33, 40 and 48 from an enumerated tie-rich family k[i] = (i*a+b) mod m (std's unstable sort is an insertion sort, hence accidentally stable, up to 20 elements), on owned arrays, interior and edge windows of a larger parent, a window of a window, a view over a longer slice, and a third-party implementor using the trait defaults. \
              Oracle: the key {line} is ordered by the comparison / key function; the multiset of whole {whole} (as tag vectors) is preserved, i.e. every original {whole_s} appears intact exactly once; the stable variants equal the model's stable sort exactly; the parent outside a window is unchanged; an out-of-range index panics and changes nothing. \
              Arrays and windows of the zero-sized () must accept and reject exactly the same indices as arrays of ordinary elements. A case is (receiver, key line, index, entry point); non-trivial = in-range index; distinct by the tuple.",
             line = line,
